@@ -221,3 +221,129 @@ func verifGarbage() []string {
 		"@ [-1,\"a\"]\n+ 1\n", "@ [-2,\"a\"]\n+ 1\n", "@ [-1e30,0]\n+ 1\n", "@ [-2.5,\"a\"]\n+ 1\n", "@ [1e30]\n+ 1\n", "@ [0.5]\n+ 1\n", "@ [-1]\n  5\n+ 6\n  7\n",
 		"[{\"op\":\"test\",\"path\":\"/0\",\"value\":1},{\"op\":\"test\",\"path\":\"/2\",\"value\":3}]", "[{\"op\":\"test\",\"path\":\"/a\"}]", "@ [\"x\"]\n", "1e999", "[1e999]", "\"\\ud800\"", "{\"a\":1,\"a\":2}"}
 }
+
+// verifCLITranslate (C14): jd -t X2Y prints exactly what the library renders for the translation, from
+// a file, from stdin and with -o, for both binaries; an input the library refuses gives exit 2.
+// mode 0: json2yaml / yaml2json of the document a; 1: jd2patch / patch2jd of a.Diff(b);
+// 2: jd2merge / merge2jd of a.Diff(b, MERGE).
+func verifCLITranslate(a, b JsonNode, mode int) string {
+	bins := []string{os.Getenv("VERIF_JD_BIN"), os.Getenv("VERIF_JDTOP_BIN")}
+	if bins[0] == "" || bins[1] == "" {
+		return "binaries not built"
+	}
+	dir, err := os.MkdirTemp("", "verifcli")
+	if err != nil {
+		return err.Error()
+	}
+	defer os.RemoveAll(dir)
+	type job struct {
+		kind, in, want string
+		wantErr        bool
+	}
+	var jobs []job
+	lib := func(kind, in string) (string, bool) {
+		switch kind {
+		case "json2yaml":
+			n, err := ReadJsonString(in)
+			if err != nil {
+				return "", true
+			}
+			return n.Yaml(), false
+		case "yaml2json":
+			n, err := ReadYamlString(in)
+			if err != nil {
+				return "", true
+			}
+			return n.Json(), false
+		case "jd2patch":
+			d, err := ReadDiffString(in)
+			if err != nil {
+				return "", true
+			}
+			s, err := d.RenderPatch()
+			return s, err != nil
+		case "patch2jd":
+			d, err := ReadPatchString(in)
+			if err != nil {
+				return "", true
+			}
+			return d.Render(), false
+		case "jd2merge":
+			d, err := ReadDiffString(in)
+			if err != nil {
+				return "", true
+			}
+			s, err := d.RenderMerge()
+			return s, err != nil
+		case "merge2jd":
+			d, err := ReadMergeString(in)
+			if err != nil {
+				return "", true
+			}
+			return d.Render(), false
+		}
+		return "", true
+	}
+	add := func(kind, in string) {
+		w, e := lib(kind, in)
+		jobs = append(jobs, job{kind, in, w, e})
+	}
+	switch mode % 3 {
+	case 0:
+		if isVoid(a) {
+			return ""
+		}
+		add("json2yaml", a.Json())
+		add("yaml2json", a.Yaml())
+		add("yaml2json", a.Json()) // JSON text given to the YAML reader: whatever the library does with it
+	case 1:
+		d := a.Diff(b)
+		add("jd2patch", d.Render())
+		if p, err := d.RenderPatch(); err == nil {
+			add("patch2jd", p)
+		}
+	case 2:
+		if !verifNullFree(a) || !verifNullFree(b) {
+			return ""
+		}
+		d := a.Diff(b, MERGE)
+		add("jd2merge", d.Render())
+		if m, err := d.RenderMerge(); err == nil {
+			add("merge2jd", m)
+		}
+	}
+	for _, j := range jobs {
+		if j.in == "" {
+			continue
+		}
+		f := filepath.Join(dir, "in")
+		os.WriteFile(f, []byte(j.in), 0o644)
+		for bi, bin := range bins {
+			r := verifExec(bin, "", "-t", j.kind, f)
+			if j.wantErr {
+				if r.exit != 2 || strings.Contains(r.stderr, "goroutine") {
+					return fmt.Sprintf("binary %d -t %s: the library refuses %q but the binary exits %d", bi, j.kind, j.in, r.exit)
+				}
+				continue
+			}
+			if r.exit != 0 || r.stdout != j.want {
+				return fmt.Sprintf("binary %d -t %s on %q: exit %d stdout %q, library %q", bi, j.kind, j.in, r.exit, r.stdout, j.want)
+			}
+			rs := verifExec(bin, j.in, "-t", j.kind)
+			if rs.exit != 0 || rs.stdout != j.want {
+				return fmt.Sprintf("binary %d -t %s from stdin: exit %d stdout %q, library %q", bi, j.kind, rs.exit, rs.stdout, j.want)
+			}
+			fo := filepath.Join(dir, "o")
+			os.Remove(fo)
+			ro := verifExec(bin, "", "-o", fo, "-t", j.kind, f)
+			got, _ := os.ReadFile(fo)
+			if ro.exit != 0 || ro.stdout != "" || string(got) != j.want {
+				return fmt.Sprintf("binary %d -t %s -o: exit %d stdout %q file %q, library %q", bi, j.kind, ro.exit, ro.stdout, got, j.want)
+			}
+		}
+	}
+	return ""
+}
+
+// verifCLITranslateDiff: the diff translations (modes 1 and 2 of verifCLITranslate) over document pairs.
+func verifCLITranslateDiff(a, b JsonNode, mode int) string { return verifCLITranslate(a, b, mode) }
